@@ -222,7 +222,7 @@ macro_rules! boundary {
             if zero_free {
                 assert!(out.len() == n + n / 254 + 2, "zero-free message: length is not n + floor(n/254) + 2");
             }
-            kani::cover!(wl == W && zero_free, "zero-free run across the boundary reachable");
+            kani::cover!(wl == W && (zero_free || zero_at.is_some()), "full window reachable (zero-free unless the prefix holds a zero)");
             kani::cover!(wl == W && w[3] == 0, "zero inside the window reachable");
         }
     };
